@@ -12,6 +12,7 @@ package main
 // approximated.  See docs/TRANSLATOR.md.
 
 import (
+	"regexp"
 	"fmt"
 	"go/ast"
 	"go/constant"
@@ -53,6 +54,11 @@ type shim struct {
 	f    string   // intrinsic / function name in GoMini
 	res  []string // static result types
 	flds []string // kind "extfld": receiver fields passed first and assigned first
+	// with (kinds "extfld", "ext", "extstmt", "primary"): fields passed read-only after flds (for "primary": fields of the
+	// OTHER object handed to the intrinsic that makes the new primary object)
+	with []string
+	// xargs (text-keyed calls, whose own arguments are part of the key): Go expressions evaluated and passed
+	xargs []string
 	// trace (kind "extstmt"): name of a mapped pseudo-field; before the call, the tuple of the call's arguments
 	// (receiver first) is appended to it — a record of what the callee was handed
 	trace string
@@ -77,6 +83,19 @@ type transFunc struct {
 	recvAs  *fieldSpec             // the receiver VALUE itself (a slice type such as multiWriteSyncer) as a field
 	structs map[string][]fieldSpec // struct types passed by value: static type "struct:<name>" is a list of these fields
 	calls   map[string]shim        // "<static type or package>.<Name>" → meaning
+	// a SECOND object of the receiver's type (a clone the function makes, or — after a "primary" statement — the
+	// original receiver): its Go fields map to these GoMini fields; otherAs is the object value itself
+	other   map[string]fieldSpec
+	otherAs *fieldSpec
+	// a pointer PARAMETER that is the object of the field environment (plain functions such as putJSONEncoder(enc))
+	objParam string
+	// zero values of opaque named types (GoMini literals), for `T{}` fields the literal omits
+	zeros map[string]string
+	// opaque named types whose values Go compares with == / != (structural equality of the GoMini values)
+	comparable []string
+	// `append` to a slice field of the receiver (or of a struct copy of it) is REFUSED: in Go it may write into a backing
+	// array shared with other objects, which value slices cannot express; such code must use the clone idiom (make + copy)
+	noFieldAppend bool
 }
 
 // tailSpec: from the first top-level statement whose source text is `from` on, the body is replaced by
@@ -125,6 +144,9 @@ type xl struct {
 	fd          *ast.FuncDecl
 	file        *ast.File // the parsed source file (package-level constants and struct declarations are read from it)
 	recvVar     string
+	otherVar    string // the second object (fields through fn.other)
+	closures    map[string]*closureInfo // named local closures `name := func() {…}` (no parameters, no results)
+	fresh       map[string]bool // locals (lean names) holding a slice this function made itself (x := make(…)): no aliasing
 	scopes      []map[string]tvar
 	consts      map[string]constant.Value // local const declarations
 	nloc        int
@@ -139,6 +161,21 @@ type xl struct {
 	hoistLeaves int                  // operands seen so far while walking an expression in evaluation order
 	hoistFields int                  // … of which field reads, constants and calls left in place
 	stmts_      int
+}
+
+// closureInfo: a local procedure.  A call `name()` is the body, inlined (a Go closure sees its captured variables by
+// reference, so running the body where the call stands IS its meaning).  As a VALUE (returned, stored) it is the record
+// [source text, captured locals at that moment]: whoever calls it later sees the snapshot — sound when the capturing
+// function does not run any more, which is the case for a returned closure.
+type closureInfo struct {
+	lit      *ast.FuncLit
+	captured []tvar
+	// a local FUNCTION `name := func(p T, …) R { return e }`: a call `name(a, …)` with local variables as arguments is
+	// the expression e with the parameters standing for those variables
+	retExpr ast.Expr
+	ptypes  []string
+	pnames  []string
+	rtype   string
 }
 
 type xerr struct{ msg string }
@@ -328,6 +365,9 @@ func (x *xl) namedConst(n ast.Node, txt string) (tx, bool) {
 			if v, ok := x.srcConst(txt); ok {
 				return tx{typ: "untyped", val: v}, true
 			}
+			if b, ok := x.srcVarBytes(txt); ok { // var name = []byte("literal"): a byte-string value
+				return tx{lean: "(.lit (.bytes " + leanBytes(b) + "))", typ: "bytes"}, true
+			}
 			x.fail(n, "constant %s: no package-level declaration with a literal value in %s", txt, x.fn.file)
 		}
 		if strings.HasPrefix(s, "bool:") {
@@ -405,6 +445,43 @@ func (x *xl) srcConst(name string) (constant.Value, bool) {
 	return nil, false
 }
 
+// srcVarBytes finds `var name = []byte("literal")` at package level of the translated file (a variable the whitelist
+// entry declares to be constant, e.g. nullLiteralBytes).
+func (x *xl) srcVarBytes(name string) ([]byte, bool) {
+	if x.file == nil {
+		return nil, false
+	}
+	for _, d := range x.file.Decls {
+		gd, ok := d.(*ast.GenDecl)
+		if !ok || gd.Tok != token.VAR {
+			continue
+		}
+		for _, sp := range gd.Specs {
+			vs := sp.(*ast.ValueSpec)
+			for i, id := range vs.Names {
+				if id.Name != name || i >= len(vs.Values) {
+					continue
+				}
+				c, ok := vs.Values[i].(*ast.CallExpr)
+				if !ok || len(c.Args) != 1 {
+					return nil, false
+				}
+				at, ok := c.Fun.(*ast.ArrayType)
+				if !ok || at.Len != nil || exprString(at.Elt) != "byte" {
+					return nil, false
+				}
+				lit, ok := c.Args[0].(*ast.BasicLit)
+				if !ok || lit.Kind != token.STRING {
+					return nil, false
+				}
+				v := constant.MakeFromLiteral(lit.Value, lit.Kind, 0)
+				return []byte(constant.StringVal(v)), true
+			}
+		}
+	}
+	return nil, false
+}
+
 // srcStructFields: the field names of `type name struct {…}` declared in the translated file, in order.
 func (x *xl) srcStructFields(name string) ([]string, bool) {
 	if x.file == nil {
@@ -456,7 +533,20 @@ func (x *xl) place(e ast.Expr) (lv string, rd string, typ string, ok bool) {
 			f := x.fn.recvAs
 			return "(.fld " + leanStr(f.lean) + ")", "(.fld " + leanStr(f.lean) + ")", f.typ, true
 		}
+		if t.Name == x.otherVar && x.otherVar != "" && x.fn.otherAs != nil {
+			f := x.fn.otherAs
+			return "(.fld " + leanStr(f.lean) + ")", "(.fld " + leanStr(f.lean) + ")", f.typ, true
+		}
 	case *ast.SelectorExpr:
+		if id, ok := t.X.(*ast.Ident); ok && id.Name == x.otherVar && x.otherVar != "" {
+			if _, shadow := x.lookupNonRecv(id.Name); shadow {
+				return "", "", "", false
+			}
+			if f, ok := x.fn.other[t.Sel.Name]; ok {
+				return "(.fld " + leanStr(f.lean) + ")", "(.fld " + leanStr(f.lean) + ")", f.typ, true
+			}
+			x.fail(e, "field %s of the second object %s is not mapped in the whitelist entry", t.Sel.Name, id.Name)
+		}
 		if id, ok := t.X.(*ast.Ident); ok && id.Name == x.recvVar && x.recvVar != "" {
 			if _, shadow := x.lookupNonRecv(id.Name); shadow {
 				return "", "", "", false
@@ -485,9 +575,14 @@ func (x *xl) expr(e ast.Expr) tx {
 			return tx{typ: "untyped", val: constant.MakeFromLiteral(t.Value, t.Kind, 0)}
 		}
 		x.fail(e, "literal %s is outside the subset", t.Value)
+	case *ast.FuncLit:
+		return x.closureValue(t, x.capturedLocals(t))
 	case *ast.Ident:
 		if _, rd, typ, ok := x.place(e); ok {
 			return tx{lean: rd, typ: typ}
+		}
+		if ci, ok := x.closures[t.Name]; ok {
+			return x.closureValue(ci.lit, ci.captured)
 		}
 		switch t.Name {
 		case "true", "false":
@@ -516,8 +611,42 @@ func (x *xl) expr(e ast.Expr) tx {
 				x.fail(e, "field %s of %s is not declared in the whitelist entry", t.Sel.Name, v.typ)
 			}
 		}
+		// a field of a struct-valued expression (ent.Caller.Defined): the inner expression must itself be in the subset
+		if inner, isSel := t.X.(*ast.SelectorExpr); isSel {
+			if v, ok := x.tryExpr(inner); ok && strings.HasPrefix(v.typ, "struct:") {
+				for i, f := range x.fn.structs[v.typ[7:]] {
+					if f.lean == t.Sel.Name {
+						return tx{lean: fmt.Sprintf("(.index %s (.lit (.int %d)))", v.lean, i), typ: f.typ}
+					}
+				}
+				x.fail(e, "field %s of %s is not declared in the whitelist entry", t.Sel.Name, v.typ)
+			}
+		}
 		x.fail(e, "selector %s is neither a mapped receiver field nor a declared constant", exprString(e))
 	case *ast.UnaryExpr:
+		if t.Op == token.AND { // &T{a, b}: a constructor the entry gives a meaning to (shim "&T")
+			if cl, ok := t.X.(*ast.CompositeLit); ok {
+				key := "&" + exprString(cl.Type)
+				sh, has := x.fn.calls[key]
+				if !has || sh.kind != "ext" || len(sh.res) != 1 {
+					x.fail(e, "%s{…} needs a shim %q of kind ext", key, key)
+				}
+				var args []string
+				for _, el := range cl.Elts {
+					if kv, ok := el.(*ast.KeyValueExpr); ok {
+						el = kv.Value
+					}
+					args = append(args, x.defaulted(el, x.expr(el)).lean)
+				}
+				return tx{lean: "(.call " + leanStr(sh.f) + " [" + strings.Join(args, ", ") + "])", typ: sh.res[0]}
+			}
+		}
+		if t.Op == token.AND { // &v where v is the second object: the object value itself
+			if id, ok := t.X.(*ast.Ident); ok && id.Name == x.otherVar && x.otherVar != "" && x.fn.otherAs != nil {
+				f := x.fn.otherAs
+				return tx{lean: "(.fld " + leanStr(f.lean) + ")", typ: f.typ}
+			}
+		}
 		a := x.expr(t.X)
 		switch t.Op {
 		case token.NOT:
@@ -554,6 +683,15 @@ func (x *xl) expr(e ast.Expr) tx {
 		}
 		return r
 	case *ast.IndexExpr:
+		if _, rd, typ, isPlace := x.place(t.X); isPlace && strings.HasPrefix(typ, "map:") {
+			// m[k] as a value: the entry gives it a meaning (shim "<map type>[k]": one result)
+			sh, has := x.fn.calls[typ+"[k]"]
+			if !has || sh.kind != "ext" || len(sh.res) != 1 {
+				x.fail(e, "map index on %s needs a shim %q of kind ext with one result", typ, typ+"[k]")
+			}
+			k := x.defaulted(t.Index, x.expr(t.Index))
+			return tx{lean: "(.call " + leanStr(sh.f) + " [" + rd + ", " + k.lean + "])", typ: sh.res[0]}
+		}
 		a, i := x.expr(t.X), x.expr(t.Index)
 		if a.typ == "untyped" {
 			a = x.defaulted(t.X, a)
@@ -569,7 +707,21 @@ func (x *xl) expr(e ast.Expr) tx {
 	case *ast.CompositeLit:
 		// T{Field: v, …} for a struct type the entry declares: the list of the DECLARED fields in declared order; a
 		// key the entry does not declare is refused, a declared field that is not given takes its zero value
+		if c, ok := x.namedConst(e, transNodeText(e)); ok { // a literal the entry names as a constant (nopCloserSink{os.Stdout})
+			return c
+		}
 		typ, ok := x.tryType(t.Type)
+		if ok && strings.HasPrefix(typ, "[]") {
+			// []T{a, b, …}: the list of the elements (no keys)
+			var parts []string
+			for _, el := range t.Elts {
+				if _, keyed := el.(*ast.KeyValueExpr); keyed {
+					x.fail(e, "keyed slice literal is outside the subset")
+				}
+				parts = append(parts, x.coerce(el, x.expr(el), typ[2:]).lean)
+			}
+			return tx{lean: "(.call \"tuple\" [" + strings.Join(parts, ", ") + "])", typ: typ}
+		}
 		if !ok || !strings.HasPrefix(typ, "struct:") {
 			x.fail(e, "composite literal of %s is outside the subset", exprString(t.Type))
 		}
@@ -620,6 +772,9 @@ func (x *xl) expr(e ast.Expr) tx {
 				continue
 			}
 			z, ok := zeroOf(f.typ)
+			if !ok {
+				z, ok = x.fn.zeros[f.typ]
+			}
 			if !ok {
 				x.fail(e, "no zero value for field %s of %s", f.lean, typ)
 			}
@@ -773,6 +928,11 @@ func (x *xl) binary(t *ast.BinaryExpr) tx {
 		okT := isInt(a.typ)
 		if t.Op == token.EQL || t.Op == token.NEQ {
 			okT = okT || a.typ == "bool" || a.typ == "string" || strings.HasPrefix(a.typ, "opt:")
+			if a.typ == b.typ {
+				for _, ct := range x.fn.comparable {
+					okT = okT || a.typ == ct
+				}
+			}
 		}
 		if !okT {
 			x.fail(t, "%s applied to %s", t.Op, a.typ)
@@ -795,20 +955,67 @@ type tcall struct {
 	targetLV  string
 	value     string
 	pre       []string // extfld: places assigned before the declared results
+	post      []string // places assigned AFTER the declared results (in-out parameters of a translated callee)
 	traceStmt string   // extstmt with a trace: executed before the call
 	pureTrace bool     // the call touches nothing Go code can read (only the trace and its own results)
+	pureFun   bool     // kind "funpure": a translated callee claimed (and checked) to assign no field
 	recvRd    string   // addret / cas: the receiver as an expression
 	old, new  string   // cas
 }
 
 var pendingCall *tcall
 
+// pureClaims: (callee, caller) pairs of "funpure" shims seen while translating the current table
+var pureClaims [][2]string
+
+var fieldTargetRe = regexp.MustCompile(`\.(assign|callX|call) \[[^\]]*\(\.fld `)
+var funCallRe = regexp.MustCompile(`\(\.call \[`)
+
+// checkPure: a translated body that assigns no field and calls no translated function
+func checkPure(body string) error {
+	if fieldTargetRe.MatchString(body) {
+		return fmt.Errorf("it assigns a field")
+	}
+	if funCallRe.MatchString(body) {
+		return fmt.Errorf("it calls a translated function")
+	}
+	return nil
+}
+
 // callExpr translates a call.  If the call has exactly one value it is returned as an expression; calls that
 // are statements (several results, mutation of the receiver, translated functions) set pendingCall.
 func (x *xl) callExpr(c *ast.CallExpr) (tx, bool) {
-	if c.Ellipsis != token.NoPos {
-		if id, ok := c.Fun.(*ast.Ident); !(ok && id.Name == "append") {
-			x.fail(c, "variadic call f(xs...) is outside the subset")
+	// f(xs...): the slice is handed over as ONE value (only shims and translated functions with a variadic
+	// parameter can be callees: everything else fails below for lack of a shim)
+	// a call of a local procedure `name := func() {…}`: its body, inlined
+	if id, ok := c.Fun.(*ast.Ident); ok {
+		if ci, isCl := x.closures[id.Name]; isCl {
+			if _, isVar := x.lookup(id.Name); !isVar && ci.retExpr != nil {
+				if len(c.Args) != len(ci.pnames) {
+					x.fail(c, "local function %s: arity", id.Name)
+				}
+				x.push()
+				for i, a := range c.Args {
+					aid, isId := a.(*ast.Ident)
+					if !isId {
+						x.pop()
+						x.fail(c, "local function %s: only local variables are in the subset as arguments", id.Name)
+					}
+					v, isLoc := x.lookup(aid.Name)
+					if !isLoc || v.typ != ci.ptypes[i] {
+						x.pop()
+						x.fail(c, "local function %s: argument %s is not a local variable of type %s", id.Name, aid.Name, ci.ptypes[i])
+					}
+					x.scopes[len(x.scopes)-1][ci.pnames[i]] = v
+				}
+				r := x.coerce(ci.retExpr, x.expr(ci.retExpr), ci.rtype)
+				x.pop()
+				return r, false
+			}
+			if _, isVar := x.lookup(id.Name); !isVar && len(c.Args) == 0 && ci.retExpr == nil {
+				pendingCall = &tcall{ctor: "stmt", value: x.scoped(ci.lit.Body)}
+				return tx{}, true
+			}
 		}
 	}
 	// conversions and builtins
@@ -823,7 +1030,7 @@ func (x *xl) callExpr(c *ast.CallExpr) (tx, bool) {
 				if a.typ == "untyped" && a.val.Kind() == constant.String {
 					return tx{typ: "untyped", val: constant.MakeInt64(int64(len(constant.StringVal(a.val))))}, false
 				}
-				if !(a.typ == "string" || a.typ == "bytes" || a.typ == "error" || strings.HasPrefix(a.typ, "[]")) {
+				if !(a.typ == "string" || a.typ == "bytes" || a.typ == "error" || strings.HasPrefix(a.typ, "[]") || strings.HasPrefix(a.typ, "map:")) {
 					x.fail(c, "len of %s", a.typ)
 				}
 				if a.typ == "error" {
@@ -920,6 +1127,34 @@ func (x *xl) callExpr(c *ast.CallExpr) (tx, bool) {
 			case "extstmt":
 				pendingCall = &tcall{ctor: "callX", f: sh.f, args: args, res: sh.res}
 				return tx{}, true
+			case "extstmtfn": // statement  lhs… = f(fnValue, args…): the function value scripts its own outcome; recorded
+				all := append([]string{"(.loc " + leanStr(v.lean) + ")"}, args...)
+				pendingCall = &tcall{ctor: "callX", f: sh.f, args: all, res: sh.res}
+				x.addTrace(c, sh, v.typ+"()", all)
+				return tx{}, true
+			case "mutarg:0", "mutarg:1", "mutarg:2": // statement  args[N], lhs… = f(fnValue, args…)
+				idx, _ := strconv.Atoi(sh.kind[7:])
+				if idx >= len(c.Args) {
+					x.fail(c, "shim %s on a function value with %d arguments", sh.kind, len(c.Args))
+				}
+				lv, _ := x.lvalue(c.Args[idx])
+				all := append([]string{"(.loc " + leanStr(v.lean) + ")"}, args...)
+				pendingCall = &tcall{ctor: "callX", f: sh.f, args: all, res: sh.res, pre: []string{lv}}
+				return tx{}, true
+			case "extfld": // statement  flds… = f(flds…, fnValue, args…): the function value is handed the object
+				var lvs, all []string
+				for _, fl := range sh.flds {
+					fs, ok := x.fn.fields[fl]
+					if !ok {
+						x.fail(c, "shim %s names the unmapped field %s", v.typ+"()", fl)
+					}
+					all = append(all, "(.fld "+leanStr(fs.lean)+")")
+					lvs = append(lvs, "(.fld "+leanStr(fs.lean)+")")
+				}
+				all = append(all, "(.loc "+leanStr(v.lean)+")")
+				all = append(all, args...)
+				pendingCall = &tcall{ctor: "callX", f: sh.f, args: all, res: sh.res, pre: lvs}
+				return tx{}, true
 			case "ext", "builtin":
 				if len(sh.res) != 1 {
 					x.fail(c, "shim %s needs one result type", v.typ+"()")
@@ -977,6 +1212,13 @@ func (x *xl) callExpr(c *ast.CallExpr) (tx, bool) {
 			key, isSelf = "recv."+sel.Sel.Name, true
 		}
 	}
+	isOther := false
+	if id, ok := sel.X.(*ast.Ident); key == "" && ok && id.Name == x.otherVar && x.otherVar != "" {
+		if _, shadow := x.lookup(id.Name); !shadow {
+			// a method of the SECOND object: only translated functions (they run on the same flat field environment)
+			key, isOther = "other."+sel.Sel.Name, true
+		}
+	}
 	if key == "" {
 		if lv, rd, typ, ok := x.place(sel.X); ok {
 			key, recvLean, recvLV, hasRecv = typ+"."+sel.Sel.Name, rd, lv, true
@@ -1004,6 +1246,18 @@ func (x *xl) callExpr(c *ast.CallExpr) (tx, bool) {
 			args = append(args, x.defaulted(a, x.expr(a)).lean)
 		}
 	}
+	if strings.HasPrefix(sh.kind, "funarg:") {
+		// statement  args[N], lhs… = translated function f(args…) whose N-th parameter is declared in-out by ITS entry
+		// (a *buffer.Buffer the callee appends to): the callee returns the final value after its results
+		idx, err := strconv.Atoi(sh.kind[7:])
+		if err != nil || idx < 0 || idx >= len(c.Args) || !(isSelf || isOther || isPkgFn) {
+			x.fail(c, "shim %s on %s", sh.kind, key)
+		}
+		addArgs()
+		lv, _ := x.lvalue(c.Args[idx])
+		pendingCall = &tcall{ctor: "call", f: sh.f, args: args, res: sh.res, post: []string{lv}}
+		return tx{}, true
+	}
 	if strings.HasPrefix(sh.kind, "mutarg:") {
 		// statement  args[N], lhs… = f(args…): an external intrinsic that writes through its N-th argument (a slice the
 		// callee fills, e.g. runtime.Callers(skip, pcs)); the argument must be assignable
@@ -1011,6 +1265,7 @@ func (x *xl) callExpr(c *ast.CallExpr) (tx, bool) {
 		if err != nil || idx < 0 || idx >= len(c.Args) || hasRecv {
 			x.fail(c, "shim %s on %s", sh.kind, key)
 		}
+		args = append(args, x.withArgs(c, sh, key)...)
 		addArgs()
 		lv, _ := x.lvalue(c.Args[idx])
 		pendingCall = &tcall{ctor: "callX", f: sh.f, args: args, res: sh.res, pre: []string{lv}}
@@ -1044,6 +1299,7 @@ func (x *xl) callExpr(c *ast.CallExpr) (tx, bool) {
 		if len(sh.res) != 1 {
 			x.fail(c, "shim %s needs one result type", key)
 		}
+		args = append(args, x.withArgs(c, sh, key)...)
 		if hasRecv {
 			args = append(args, recvLean)
 		}
@@ -1095,6 +1351,7 @@ func (x *xl) callExpr(c *ast.CallExpr) (tx, bool) {
 		pendingCall = &tcall{ctor: "cas", targetLV: recvLV, recvRd: recvLean, old: o.lean, new: n.lean, res: []string{"bool"}}
 		return tx{}, true
 	case "extstmt":
+		args = append(args, x.withArgs(c, sh, key)...)
 		if hasRecv {
 			args = append(args, recvLean)
 		}
@@ -1103,10 +1360,9 @@ func (x *xl) callExpr(c *ast.CallExpr) (tx, bool) {
 		x.addTrace(c, sh, key, args)
 		return tx{}, true
 	case "extfld":
-		// statement  flds…, lhs… = f(flds…, args…): an untranslated method of the receiver that reads and writes the listed fields
-		if !isSelf {
-			x.fail(c, "shim extfld %s must be called on the receiver itself", key)
-		}
+		// statement  flds…, lhs… = f(flds…, with…, recv?, args…): an intrinsic that reads and writes the listed fields of
+		// the (primary) object — an untranslated method of the receiver, a function the object is handed to
+		// (addFields(final, …)), a marshaler or sub-encoder called back with the object
 		var lvs []string
 		for _, fl := range sh.flds {
 			fs, ok := x.fn.fields[fl]
@@ -1116,8 +1372,14 @@ func (x *xl) callExpr(c *ast.CallExpr) (tx, bool) {
 			args = append(args, "(.fld "+leanStr(fs.lean)+")")
 			lvs = append(lvs, "(.fld "+leanStr(fs.lean)+")")
 		}
+		args = append(args, x.withArgs(c, sh, key)...)
+		if hasRecv {
+			args = append(args, recvLean)
+		}
 		addArgs()
 		pendingCall = &tcall{ctor: "callX", f: sh.f, args: args, res: sh.res, pre: lvs}
+		x.addTrace(c, sh, key, args)
+		pendingCall.pureTrace = false
 		return tx{}, true
 	case "mutext":
 		if !hasRecv || recvLV == "" {
@@ -1136,12 +1398,16 @@ func (x *xl) callExpr(c *ast.CallExpr) (tx, bool) {
 		addArgs()
 		pendingCall = &tcall{ctor: "call", f: sh.f, args: args, res: sh.res}
 		return tx{}, true
-	case "fun":
-		if !isSelf && !isPkgFn {
+	case "fun", "funpure":
+		if !isSelf && !isPkgFn && !isOther {
 			x.fail(c, "translated function %s must be called on the receiver itself", key)
 		}
 		addArgs()
-		pendingCall = &tcall{ctor: "call", f: sh.f, args: args, res: sh.res}
+		pendingCall = &tcall{ctor: "call", f: sh.f, args: args, res: sh.res, pureFun: sh.kind == "funpure"}
+		if sh.kind == "funpure" {
+			// the claim is checked on the callee's generated body when the table is assembled
+			pureClaims = append(pureClaims, [2]string{sh.f, x.fn.name})
+		}
 		return tx{}, true
 	}
 	x.fail(c, "unknown shim kind %q for %s", sh.kind, key)
@@ -1149,6 +1415,90 @@ func (x *xl) callExpr(c *ast.CallExpr) (tx, bool) {
 }
 
 // addTrace: a traced intrinsic records (name, arguments…) in the trace pseudo-field before it is called
+// withArgs: the read-only fields of the primary object a shim passes to its intrinsic
+func (x *xl) withArgs(c *ast.CallExpr, sh shim, key string) []string {
+	var out []string
+	for _, fl := range sh.with {
+		fs, ok := x.fn.fields[fl]
+		if !ok {
+			x.fail(c, "shim %s names the unmapped field %s", key, fl)
+		}
+		out = append(out, "(.fld "+leanStr(fs.lean)+")")
+	}
+	for _, src := range sh.xargs {
+		e, err := parser.ParseExpr(src)
+		if err != nil {
+			x.fail(c, "shim %s: bad xargs expression %q", key, src)
+		}
+		out = append(out, x.defaulted(c, x.expr(e)).lean)
+	}
+	return out
+}
+
+// capturedLocals: the locals (in scope now) a function literal mentions, in order of first mention
+func (x *xl) capturedLocals(fl *ast.FuncLit) []tvar {
+	var out []tvar
+	seen := map[string]bool{}
+	ast.Inspect(fl.Body, func(n ast.Node) bool {
+		if id, ok := n.(*ast.Ident); ok {
+			if v, ok := x.lookup(id.Name); ok && !seen[v.lean] {
+				seen[v.lean] = true
+				out = append(out, v)
+			}
+		}
+		return true
+	})
+	return out
+}
+
+// closureValue: a function literal as a value: [its source text, the captured locals]
+func (x *xl) closureValue(fl *ast.FuncLit, captured []tvar) tx {
+	parts := []string{"(.lit (.bytes " + leanBytes([]byte(transNodeText(fl))) + ") /- closure: its source text -/)"}
+	for _, v := range captured {
+		parts = append(parts, "(.loc "+leanStr(v.lean)+")")
+	}
+	// the receiver fields the literal mentions are part of the value too (in order of first mention); a mention of an
+	// unmapped field, or of the receiver as a whole without a recvAs mapping, is refused
+	if x.recvVar != "" {
+		seen := map[string]bool{}
+		inSel := map[*ast.Ident]bool{}
+		ast.Inspect(fl.Body, func(n ast.Node) bool {
+			switch t := n.(type) {
+			case *ast.SelectorExpr:
+				if id, ok := t.X.(*ast.Ident); ok && id.Name == x.recvVar {
+					if _, shadow := x.lookup(id.Name); shadow {
+						return true
+					}
+					inSel[id] = true
+					f, ok := x.fn.fields[t.Sel.Name]
+					if !ok {
+						x.fail(fl, "the function literal reads receiver field %s, which is not mapped in the whitelist entry", t.Sel.Name)
+					}
+					if !seen[f.lean] {
+						seen[f.lean] = true
+						parts = append(parts, "(.fld "+leanStr(f.lean)+")")
+					}
+				}
+			case *ast.Ident:
+				if t.Name == x.recvVar && !inSel[t] {
+					if _, shadow := x.lookup(t.Name); shadow {
+						return true
+					}
+					if x.fn.recvAs == nil {
+						x.fail(fl, "the function literal mentions the receiver as a whole, which the whitelist entry does not map")
+					}
+					if !seen[x.fn.recvAs.lean] {
+						seen[x.fn.recvAs.lean] = true
+						parts = append(parts, "(.fld "+leanStr(x.fn.recvAs.lean)+")")
+					}
+				}
+			}
+			return true
+		})
+	}
+	return tx{lean: "(.call \"tuple\" [" + strings.Join(parts, ", ") + "])", typ: "opt:Closure"}
+}
+
 func (x *xl) addTrace(c *ast.CallExpr, sh shim, key string, args []string) {
 	if sh.trace == "" {
 		return
@@ -1233,6 +1583,8 @@ func (x *xl) conversion(c *ast.CallExpr, to string) tx {
 		if a.typ == "string" || a.typ == "bytes" {
 			return tx{lean: a.lean, typ: to} // same bytes; no aliasing is observable in the subset
 		}
+	case a.typ == to:
+		return a // a named type over the same representation (groupObject(attrs)): the value itself
 	}
 	x.fail(c, "conversion of %s to %s is outside the subset", a.typ, to)
 	return tx{}
@@ -1244,6 +1596,13 @@ func (x *xl) appendCall(c *ast.CallExpr) tx {
 		x.fail(c, "append with %d arguments is outside the subset", len(c.Args))
 	}
 	s := x.expr(c.Args[0])
+	if x.fn.noFieldAppend {
+		if sel, ok := c.Args[0].(*ast.SelectorExpr); ok {
+			if id, ok := sel.X.(*ast.Ident); ok && (id.Name == x.recvVar || id.Name == x.otherVar) {
+				x.fail(c, "append to %s: a slice field of the receiver (or of a struct copy of it) may share its backing array with other objects; use make + copy", exprString(c.Args[0]))
+			}
+		}
+	}
 	if c.Ellipsis != token.NoPos {
 		t := x.defaulted(c.Args[1], x.expr(c.Args[1]))
 		okT := t.typ == s.typ || (s.typ == "bytes" && t.typ == "string")
@@ -1366,7 +1725,7 @@ func (x *xl) hoistCall(t *ast.CallExpr, conditional, first bool, out *[]string) 
 	if conditional {
 		x.fail(t, "call %s is evaluated conditionally (right operand of && or ||): it cannot be executed before the statement", exprString(t.Fun))
 	}
-	pure := pc.ctor == "callX" && len(pc.pre) == 0
+	pure := (pc.ctor == "callX" && len(pc.pre) == 0) || pc.pureFun
 	if !pure && !first {
 		x.fail(t, "call %s changes state and is evaluated after a field read or another call", exprString(t.Fun))
 	}
@@ -1585,6 +1944,11 @@ func (x *xl) stmt1(s ast.Stmt) string {
 
 func (x *xl) emitCall(n ast.Node, pc *tcall, lvs []string, ltyps []string) string {
 	switch pc.ctor {
+	case "stmt":
+		if len(lvs) != 0 {
+			x.fail(n, "a local procedure has no value")
+		}
+		return pc.value
 	case "nop":
 		if len(lvs) != 0 {
 			x.fail(n, "a call without meaning has no value")
@@ -1624,6 +1988,7 @@ func (x *xl) emitCall(n ast.Node, pc *tcall, lvs []string, ltyps []string) strin
 			}
 		}
 		lvs = append(append([]string{}, pc.pre...), lvs...)
+		lvs = append(lvs, pc.post...)
 		if pc.traceStmt != "" {
 			return block([]string{pc.traceStmt, "(." + pc.ctor + " [" + strings.Join(lvs, ", ") + "] " + leanStr(pc.f) + " [" + strings.Join(pc.args, ", ") + "])"})
 		}
@@ -1671,18 +2036,200 @@ func (x *xl) assign(t *ast.AssignStmt) string {
 		}
 		return "(.assign [" + lv + "] [" + v.lean + "])"
 	}
-	// `v := pool.Get()` with a shim of kind "object" in a plain function: from here on v IS the object whose fields the
-	// entry maps (the field environment at entry describes what Get returns); v.f reads / writes those fields
+	// `name := func() {…}`: a local procedure (no parameters, no results)
 	if len(t.Lhs) == 1 && len(t.Rhs) == 1 && t.Tok == token.DEFINE {
-		if c, isCall := t.Rhs[0].(*ast.CallExpr); isCall && len(c.Args) == 0 {
-			if sh, ok := x.fn.calls[exprString(c.Fun)]; ok && sh.kind == "object" {
-				id, isId := t.Lhs[0].(*ast.Ident)
-				if !isId || x.recvVar != "" || x.fd.Recv != nil || x.depth != 1 {
-					x.fail(t, "shim object: only `v := f()` at the top level of a plain function")
+		if fl, ok := t.Rhs[0].(*ast.FuncLit); ok {
+			id, isId := t.Lhs[0].(*ast.Ident)
+			if x.closures == nil {
+				x.closures = map[string]*closureInfo{}
+			}
+			if isId && fl.Type.Results != nil && len(fl.Type.Results.List) == 1 && len(fl.Type.Results.List[0].Names) == 0 &&
+				len(fl.Body.List) == 1 {
+				// `name := func(p T, …) R { return e }`: a local function given by ONE expression
+				if rs, ok := fl.Body.List[0].(*ast.ReturnStmt); ok && len(rs.Results) == 1 {
+					ci := &closureInfo{lit: fl, captured: x.capturedLocals(fl), retExpr: rs.Results[0], rtype: x.goType(fl.Type.Results.List[0].Type)}
+					if fl.Type.Params != nil {
+						for _, f := range fl.Type.Params.List {
+							pt := x.goType(f.Type)
+							for _, n := range f.Names {
+								ci.pnames = append(ci.pnames, n.Name)
+								ci.ptypes = append(ci.ptypes, pt)
+							}
+						}
+					}
+					x.closures[id.Name] = ci
+					x.legend = append(x.legend, id.Name+" = a local function given by one expression: calls on local variables are that expression")
+					return ".skip"
 				}
-				x.recvVar = id.Name
-				x.legend = append(x.legend, id.Name+" = THE object of the field environment (from "+exprString(c.Fun)+"())")
-				return ".skip"
+			}
+			if !isId || (fl.Type.Params != nil && len(fl.Type.Params.List) != 0) || fl.Type.Results != nil {
+				x.fail(t, "local function literals are in the subset only as `name := func() {…}` (no parameters, no results) or `name := func(…) T { return e }`")
+			}
+			x.closures[id.Name] = &closureInfo{lit: fl, captured: x.capturedLocals(fl)}
+			x.legend = append(x.legend, id.Name+" = a local procedure: calls are its body inlined; as a value it is [source text, captured locals]")
+			return ".skip"
+		}
+	}
+	// `v, ok := m[k]` on a map the entry gives a meaning to (shim "<map type>[]": value and presence)
+	if len(t.Lhs) == 2 && len(t.Rhs) == 1 {
+		if ix, ok := t.Rhs[0].(*ast.IndexExpr); ok {
+			if _, rd, typ, isPlace := x.place(ix.X); isPlace && strings.HasPrefix(typ, "map:") {
+				sh, has := x.fn.calls[typ+"[]"]
+				if !has || sh.kind != "extstmt" || len(sh.res) != 2 {
+					x.fail(t, "map lookup on %s needs a shim %q of kind extstmt with two results", typ, typ+"[]")
+				}
+				k := x.defaulted(ix.Index, x.expr(ix.Index))
+				lvs, typs := x.targets(t, sh.res)
+				return x.emitCall(t, &tcall{ctor: "callX", f: sh.f, args: []string{rd, k.lean}, res: sh.res}, lvs, typs)
+			}
+		}
+	}
+	if len(t.Lhs) == 1 && len(t.Rhs) == 1 {
+		// `cloned := *h`: a struct copy of the receiver into the SECOND object: every field the `other` map shares with
+		// `fields` (by Go name) is copied.  Slice fields are copied as values (in Go: the header — they SHARE a backing array)
+		if st, ok := t.Rhs[0].(*ast.StarExpr); ok && t.Tok == token.DEFINE {
+			if rid, ok := st.X.(*ast.Ident); ok && rid.Name == x.recvVar && x.recvVar != "" && x.fn.other != nil && x.otherVar == "" {
+				id, isId := t.Lhs[0].(*ast.Ident)
+				if !isId || x.depth != 1 {
+					x.fail(t, "struct copy of the receiver: only `v := *recv` at the top level")
+				}
+				x.otherVar = id.Name
+				x.legend = append(x.legend, id.Name+" = the SECOND object, a struct copy of the receiver")
+				var names []string
+				for n := range x.fn.other {
+					if _, ok := x.fn.fields[n]; ok {
+						names = append(names, n)
+					}
+				}
+				sort.Strings(names)
+				var parts []string
+				for _, n := range names {
+					parts = append(parts, "(.assign [(.fld "+leanStr(x.fn.other[n].lean)+")] [(.fld "+leanStr(x.fn.fields[n].lean)+")])")
+				}
+				return block(parts)
+			}
+		}
+		if t.Tok == token.ASSIGN {
+			// `x.f = v` on a local of a declared struct type: the record with that field replaced
+			if sel, ok := t.Lhs[0].(*ast.SelectorExpr); ok {
+				if id, ok := sel.X.(*ast.Ident); ok {
+					if v, ok := x.lookup(id.Name); ok && (strings.HasPrefix(v.typ, "struct:") || strings.HasPrefix(v.typ, "ptr:struct:")) {
+						decl := x.fn.structs[v.typ[strings.Index(v.typ, "struct:")+7:]]
+						var parts []string
+						found := false
+						for i, f := range decl {
+							if f.lean == sel.Sel.Name {
+								found = true
+								pre := x.hoist(t.Rhs[0], true)
+								if len(pre) != 0 {
+									x.fail(t, "statement-level call on the right of a struct field assignment")
+								}
+								parts = append(parts, x.coerce(t.Rhs[0], x.expr(t.Rhs[0]), f.typ).lean)
+							} else {
+								parts = append(parts, fmt.Sprintf("(.index (.loc %s) (.lit (.int %d)))", leanStr(v.lean), i))
+							}
+						}
+						if !found {
+							x.fail(t, "field %s of %s is not declared in the whitelist entry", sel.Sel.Name, v.typ)
+						}
+						return "(.assign [(.loc " + leanStr(v.lean) + ")] [(.call \"tuple\" [" + strings.Join(parts, ", ") + "])])"
+					}
+				}
+			}
+			// `x[i] = v` on a local slice this function made itself: the entry's intrinsic "slice.set"
+			if ix, ok := t.Lhs[0].(*ast.IndexExpr); ok {
+				if id, ok := ix.X.(*ast.Ident); ok {
+					if v, ok := x.lookup(id.Name); ok && x.fresh[v.lean] && strings.HasPrefix(v.typ, "[]") {
+						sh, has := x.fn.calls["slice.set"]
+						if !has || sh.kind != "ext" {
+							x.fail(t, "element assignment needs a shim \"slice.set\" of kind ext")
+						}
+						i := x.asIndex(ix.Index, x.expr(ix.Index))
+						val := x.coerce(t.Rhs[0], x.expr(t.Rhs[0]), v.typ[2:])
+						return "(.assign [(.loc " + leanStr(v.lean) + ")] [(.call " + leanStr(sh.f) + " [(.loc " + leanStr(v.lean) + "), " + i.lean + ", " + val.lean + "])])"
+					}
+					x.fail(t, "element assignment %s: only on a local slice made by this function (x := make(…))", exprString(t.Lhs[0]))
+				}
+			}
+		}
+	}
+	// `v := pool.Get()` with a shim of kind "object": in a plain function v IS the object whose fields the entry maps
+	// (the field environment at entry describes what Get returns); in a METHOD v is the SECOND object (fields through
+	// `other`).  `v := recv.f()` with kind "objectfun": the translated function f is called and v is the second object
+	// it filled.  `v := recv.f()` with kind "primary": an intrinsic makes a new object from the receiver; from here on
+	// v is the PRIMARY object (fields through `fields`, method calls are self calls) and the receiver is the second one.
+	if len(t.Lhs) == 1 && len(t.Rhs) == 1 && t.Tok == token.DEFINE {
+		rhs := t.Rhs[0]
+		if ta, isTA := rhs.(*ast.TypeAssertExpr); isTA && ta.Type != nil {
+			rhs = ta.X // `f().(*T)`: the whitelist entry vouches for the dynamic type
+		}
+		if c, isCall := rhs.(*ast.CallExpr); isCall && len(c.Args) == 0 {
+			key := exprString(c.Fun)
+			if id0 := rootIdent(c.Fun); id0 == x.recvVar && x.recvVar != "" {
+				key = "recv" + strings.TrimPrefix(key, x.recvVar)
+			}
+			if rhs != t.Rhs[0] {
+				key += ".(" + exprString(t.Rhs[0].(*ast.TypeAssertExpr).Type) + ")"
+			}
+			if sh, ok := x.fn.calls[key]; ok && (sh.kind == "object" || sh.kind == "objectfun" || sh.kind == "primary") {
+				id, isId := t.Lhs[0].(*ast.Ident)
+				if !isId || x.depth != 1 || x.otherVar != "" {
+					x.fail(t, "shim %s: only `v := f()` at the top level, once", sh.kind)
+				}
+				switch {
+				case sh.kind == "object" && x.recvVar == "":
+					x.recvVar = id.Name
+					x.legend = append(x.legend, id.Name+" = THE object of the field environment (from "+exprString(c.Fun)+"())")
+					return ".skip"
+				case sh.kind == "object":
+					if x.fn.other == nil {
+						x.fail(t, "shim object in a method needs an `other` field map")
+					}
+					x.otherVar = id.Name
+					x.legend = append(x.legend, id.Name+" = the SECOND object (from "+exprString(c.Fun)+"())")
+					if sh.f == "" {
+						return ".skip"
+					}
+					pc := &tcall{ctor: "callX", f: sh.f, res: nil}
+					pendingCall = pc
+					x.addTrace(c, sh, key, nil)
+					pendingCall = nil
+					return x.emitCall(t, pc, nil, nil)
+				case sh.kind == "objectfun":
+					if x.fn.other == nil {
+						x.fail(t, "shim objectfun needs an `other` field map")
+					}
+					x.otherVar = id.Name
+					x.legend = append(x.legend, id.Name+" = the SECOND object, filled by the translated "+sh.f)
+					return "(.call [.blank] " + leanStr(sh.f) + " [])"
+				default: // primary
+					if x.fn.other == nil || x.recvVar == "" {
+						x.fail(t, "shim primary needs a receiver and an `other` field map")
+					}
+					var lvs, args []string
+					for _, fl := range sh.flds {
+						fs, ok := x.fn.fields[fl]
+						if !ok {
+							x.fail(t, "shim %s names the unmapped field %s", key, fl)
+						}
+						lvs = append(lvs, "(.fld "+leanStr(fs.lean)+")")
+					}
+					for _, fl := range sh.with {
+						fs, ok := x.fn.other[fl]
+						if !ok {
+							x.fail(t, "shim %s names the unmapped field %s of the receiver", key, fl)
+						}
+						args = append(args, "(.fld "+leanStr(fs.lean)+")")
+					}
+					x.legend = append(x.legend, id.Name+" = the PRIMARY object from here on (made by "+sh.f+"); "+x.recvVar+" = the second object")
+					x.otherVar = x.recvVar
+					x.recvVar = id.Name
+					pc := &tcall{ctor: "callX", f: sh.f, args: args, res: nil, pre: lvs}
+					pendingCall = pc
+					x.addTrace(c, sh, key, args)
+					pendingCall = nil
+					return x.emitCall(t, pc, nil, nil)
+				}
 			}
 		}
 	}
@@ -1755,7 +2302,26 @@ func (x *xl) assign(t *ast.AssignStmt) string {
 	for _, r := range t.Rhs {
 		vs = append(vs, x.expr(r))
 	}
-	return x.assignValues(t, vs)
+	out := x.assignValues(t, vs)
+	if t.Tok == token.DEFINE {
+		for i, r := range t.Rhs {
+			c, ok := r.(*ast.CallExpr)
+			if !ok {
+				continue
+			}
+			if fid, ok := c.Fun.(*ast.Ident); ok && fid.Name == "make" {
+				if id, ok := t.Lhs[i].(*ast.Ident); ok {
+					if v, ok := x.lookup(id.Name); ok {
+						if x.fresh == nil {
+							x.fresh = map[string]bool{}
+						}
+						x.fresh[v.lean] = true
+					}
+				}
+			}
+		}
+	}
+	return out
 }
 
 // targets resolves (declaring, for :=) the left-hand sides given the static types of the values.
@@ -1810,6 +2376,22 @@ func (x *xl) assignValues(t *ast.AssignStmt, vs []tx) string {
 	var rs []string
 	for i := range vs {
 		rs = append(rs, x.coerce(t.Rhs[i], vs[i], typs[i]).lean)
+	}
+	if t.Tok == token.DEFINE { // x := make(…): x holds a slice of this function's own
+		for i, r := range t.Rhs {
+			if c, ok := r.(*ast.CallExpr); ok {
+				if fid, ok := c.Fun.(*ast.Ident); ok && fid.Name == "make" {
+					if id, ok := t.Lhs[i].(*ast.Ident); ok {
+						if v, ok := x.lookup(id.Name); ok {
+							if x.fresh == nil {
+								x.fresh = map[string]bool{}
+							}
+							x.fresh[v.lean] = true
+						}
+					}
+				}
+			}
+		}
 	}
 	return "(.assign [" + strings.Join(lvs, ", ") + "] [" + strings.Join(rs, ", ") + "])"
 }
@@ -1989,6 +2571,36 @@ func (x *xl) deferStmt(t *ast.DeferStmt) string {
 	if len(t.Call.Args) != 0 {
 		x.fail(t, "defer of a call with arguments is outside the subset")
 	}
+	// `defer func() { a(); b() }()`: a closure without parameters whose body is a list of call statements; they run (in
+	// source order) where a deferred call runs
+	if fl, ok := t.Call.Fun.(*ast.FuncLit); ok {
+		if fl.Type.Params != nil && len(fl.Type.Params.List) != 0 || fl.Type.Results != nil {
+			x.fail(t, "deferred closure with parameters or results")
+		}
+		var parts []string
+		for _, st := range fl.Body.List {
+			es, ok := st.(*ast.ExprStmt)
+			if !ok {
+				x.fail(st, "deferred closure: only call statements are in the subset")
+			}
+			ce, ok := es.X.(*ast.CallExpr)
+			if !ok {
+				x.fail(st, "deferred closure: only call statements are in the subset")
+			}
+			_, isStmt := x.callExpr(ce)
+			if !isStmt {
+				x.fail(st, "deferred closure: %s must be a statement-level intrinsic", exprString(ce.Fun))
+			}
+			pc := pendingCall
+			pendingCall = nil
+			if pc.ctor != "callX" {
+				x.fail(st, "deferred closure: %s must be an external intrinsic", exprString(ce.Fun))
+			}
+			parts = append(parts, x.emitCall(st, pc, nil, nil))
+		}
+		x.defers = append(x.defers, block(parts))
+		return ".skip"
+	}
 	_, isStmt := x.callExpr(t.Call)
 	if !isStmt {
 		x.fail(t, "deferred call %s must be a recorded intrinsic", exprString(t.Call.Fun))
@@ -2009,10 +2621,14 @@ func (x *xl) switchStmt(t *ast.SwitchStmt) string {
 	if t.Init != nil {
 		pre = append(pre, x.stmt(t.Init))
 	}
+	var tag tx
 	if t.Tag == nil {
-		x.fail(t, "switch without a tag is outside the subset")
+		// `switch { case c1: … }`: the first case whose condition holds — a switch on `true` (conditions are evaluated
+		// in source order, one at a time)
+		tag = tx{lean: "(.lit (.bool true))", typ: "bool"}
+	} else {
+		tag = x.defaulted(t.Tag, x.expr(t.Tag))
 	}
-	tag := x.defaulted(t.Tag, x.expr(t.Tag))
 	if !(isInt(tag.typ) || tag.typ == "bool" || tag.typ == "string") {
 		x.fail(t, "switch on %s", tag.typ)
 	}
@@ -2060,6 +2676,24 @@ func (x *xl) rangeStmt(t *ast.RangeStmt) string {
 	defer x.pop()
 	xs := x.expr(t.X)
 	var el string
+	if strings.HasPrefix(xs.typ, "map:") {
+		// `for k := range m`: the keys in the order the entry's intrinsic "<map type>.keys" gives them (an arbitrary
+		// parameter: Go's order is unspecified); only the key form is in the subset
+		sh, has := x.fn.calls[xs.typ+".keys"]
+		if !has || sh.kind != "ext" || len(sh.res) != 1 || !strings.HasPrefix(sh.res[0], "[]") {
+			x.fail(t, "range over %s needs a shim %q of kind ext with one slice result", xs.typ, xs.typ+".keys")
+		}
+		if t.Value != nil {
+			x.fail(t, "range over a map with a value variable is outside the subset")
+		}
+		kid, ok := t.Key.(*ast.Ident)
+		if !ok || t.Tok != token.DEFINE || kid.Name == "_" {
+			x.fail(t, "range over a map: only `for k := range m`")
+		}
+		v := x.declare(t, kid.Name, sh.res[0][2:])
+		body := x.scoped(t.Body)
+		return x.namedLoop("(.range .blank (.loc " + leanStr(v.lean) + ") (.call " + leanStr(sh.f) + " [" + xs.lean + "])\n  " + indent(body, 2) + ")")
+	}
 	switch {
 	case xs.typ == "bytes":
 		el = "u8"
@@ -2206,6 +2840,14 @@ func (x *xl) function() (lean string, err error) {
 			x.fail(f, "unnamed parameter")
 		}
 		for _, n := range f.Names {
+			if x.fn.objParam != "" && n.Name == x.fn.objParam {
+				if x.recvVar != "" {
+					x.fail(f, "objParam in a method")
+				}
+				x.recvVar = n.Name
+				x.legend = append(x.legend, n.Name+" = THE object of the field environment (parameter)")
+				continue
+			}
 			p := tvar{fmt.Sprintf("p%d", np), typ}
 			np++
 			params = append(params, leanStr(p.lean))
@@ -2259,7 +2901,11 @@ func (x *xl) function() (lean string, err error) {
 		body = x.cutBody(fd)
 	}
 	if len(x.inouts) > 0 {
-		body = block([]string{body, "(.ret [" + x.inoutVals() + "])"})
+		end := []string{body}
+		for k := len(x.defers) - 1; k >= 0; k-- {
+			end = append(end, x.defers[k])
+		}
+		body = block(append(end, "(.ret ["+x.inoutVals()+"])"))
 	} else if len(x.defers) > 0 && len(x.results) == 0 {
 		end := []string{body}
 		for k := len(x.defers) - 1; k >= 0; k-- {
@@ -2338,6 +2984,8 @@ func translate(spec transSpec) func() (string, int, error) {
 		sb.WriteString("namespace ZapVerif.Gen." + spec.table + "\nopen ZapVerif.GoMini\n\n")
 		rows := 0
 		var names []string
+		pureClaims = nil
+		bodies := map[string]string{}
 		for i := range spec.funcs {
 			fn := &spec.funcs[i]
 			_, f, err := parseTransFile(fn.file)
@@ -2355,8 +3003,18 @@ func translate(spec transSpec) func() (string, int, error) {
 				return "", 0, fmt.Errorf("%s: %v", fn.name, err)
 			}
 			sb.WriteString(lean)
+			bodies[fn.lean] = lean
 			rows += x.stmts_
 			names = append(names, fn.lean)
+		}
+		for _, cl := range pureClaims {
+			body, ok := bodies[cl[0]]
+			if !ok {
+				return "", 0, fmt.Errorf("%s: funpure callee %s is not in this table", cl[1], cl[0])
+			}
+			if err := checkPure(body); err != nil {
+				return "", 0, fmt.Errorf("%s: the call of %s is placed as if it changed nothing, but %v", cl[1], cl[0], err)
+			}
 		}
 		sb.WriteString("/-- the translated functions of this table by name -/\ndef funs : String → Option Fun\n")
 		for _, n := range names {
